@@ -4,7 +4,11 @@
 // huge one-sided and unrepresentable (wider than f64::MAX) ranges.
 //@target src/pc_reader_simple.rs
 //@check normalize_grid serves=C13 fn=Range::normalize note="BOUNDED: 14 ranges (degenerate, subnormal width, [0,1], [0,255], [-5,1000], [0,2^53], one-sided huge, f64::MIN..f64::MAX, -1e308..1e308, ...) x 41 sample values per range (below, at and above both ends, interior points): result in [0,1], never NaN, exactly 0 at/below the minimum, exactly 1 at/above the maximum of a non-degenerate range, non-decreasing in the value, and equal to (v-min)/(max-min) in f64 where that expression is exact"
+//@check channel_limits_wiring serves=C13,C05 fn=Range::{red,green,blue,intensity}_from_pointcloud,PointCloudReaderSimple::{new,pop_point} note="BOUNDED: one cloud with integer colour records and an intensity record, explicit limits that differ in EVERY channel (red 10..110, green 100..200, blue 0..50, intensity 1000..3000) and values inside them; the simple iterator must deliver (v - min_c) / (max_c - min_c) with the limits of the SAME channel; with normalisation switched off the stored values as f32"
 //@module
+    use crate::{ColorLimits, E57Reader, E57Writer, IntensityLimits, Record, RecordDataType, RecordName, RecordValue};
+    use std::io::Cursor;
+
     #[test]
     fn normalize_grid() {
         let ranges: [(f64, f64); 14] = [
@@ -45,5 +49,56 @@
             if (min, max) == (-5.0, 1000.0) {
                 assert_eq!(r.normalize(196.0), 0.2f64 as f32);
             }
+        }
+    }
+
+    #[test]
+    fn channel_limits_wiring() {
+        let int = |min: i64, max: i64| RecordDataType::Integer { min, max };
+        let proto = vec![
+            Record::CARTESIAN_X_F32, Record::CARTESIAN_Y_F32, Record::CARTESIAN_Z_F32,
+            Record { name: RecordName::ColorRed, data_type: int(0, 4095) },
+            Record { name: RecordName::ColorGreen, data_type: int(0, 4095) },
+            Record { name: RecordName::ColorBlue, data_type: int(0, 4095) },
+            Record { name: RecordName::Intensity, data_type: int(0, 4095) },
+        ];
+        let lim = [(10i64, 110i64), (100, 200), (0, 50), (1000, 3000)];
+        let pts: Vec<[i64; 4]> = vec![[10, 100, 0, 1000], [110, 200, 50, 3000], [35, 150, 10, 1500], [60, 125, 40, 2500], [85, 175, 25, 2000]];
+        let mut file = Cursor::new(Vec::new());
+        {
+            let mut w = E57Writer::new(&mut file, "guid").unwrap();
+            let mut pcw = w.add_pointcloud("pc", proto).unwrap();
+            pcw.set_color_limits(Some(ColorLimits {
+                red_min: Some(RecordValue::Integer(lim[0].0)), red_max: Some(RecordValue::Integer(lim[0].1)),
+                green_min: Some(RecordValue::Integer(lim[1].0)), green_max: Some(RecordValue::Integer(lim[1].1)),
+                blue_min: Some(RecordValue::Integer(lim[2].0)), blue_max: Some(RecordValue::Integer(lim[2].1)),
+            }));
+            pcw.set_intensity_limits(Some(IntensityLimits { intensity_min: Some(RecordValue::Integer(lim[3].0)), intensity_max: Some(RecordValue::Integer(lim[3].1)) }));
+            for p in &pts {
+                pcw.add_point(vec![RecordValue::Single(1.0), RecordValue::Single(2.0), RecordValue::Single(3.0),
+                                   RecordValue::Integer(p[0]), RecordValue::Integer(p[1]), RecordValue::Integer(p[2]), RecordValue::Integer(p[3])]).unwrap();
+            }
+            pcw.finalize().unwrap();
+            w.finalize().unwrap();
+        }
+        let bytes = file.into_inner();
+        let mut r = E57Reader::new(Cursor::new(bytes.clone())).unwrap();
+        let pc = r.pointclouds()[0].clone();
+        let want = |v: i64, c: usize| ((v - lim[c].0) as f64 / (lim[c].1 - lim[c].0) as f64) as f32;
+        for (i, p) in r.pointcloud_simple(&pc).unwrap().enumerate() {
+            let p = p.unwrap();
+            let c = p.color.clone().expect("colour present");
+            assert_eq!((c.red, c.green, c.blue), (want(pts[i][0], 0), want(pts[i][1], 1), want(pts[i][2], 2)), "normalised colour of point {i}: every channel with its own limits");
+            assert_eq!(p.intensity, Some(want(pts[i][3], 3)), "normalised intensity of point {i}");
+        }
+        let mut r = E57Reader::new(Cursor::new(bytes)).unwrap();
+        let mut it = r.pointcloud_simple(&pc).unwrap();
+        it.normalize_color(false);
+        it.normalize_intensity(false);
+        for (i, p) in it.enumerate() {
+            let p = p.unwrap();
+            let c = p.color.clone().expect("colour present");
+            assert_eq!((c.red, c.green, c.blue), (pts[i][0] as f32, pts[i][1] as f32, pts[i][2] as f32), "raw colour of point {i} with normalisation off");
+            assert_eq!(p.intensity, Some(pts[i][3] as f32), "raw intensity of point {i} with normalisation off");
         }
     }
